@@ -32,6 +32,8 @@ func (c *Conversation) receiveUnit(m ValidMessage, forgetFragments bool) (plain 
 		shouldForgetFragment = false
 		c.fragmentationContext, err = c.receiveFragment(c.fragmentationContext, message)
 		if fragmentsFinished(c.fragmentationContext) {
+			// a completed message is processed once: later (ignored) fragments must not find it again
+			defer func() { c.fragmentationContext = forgetFragment() }()
 			return c.withInjectionsPlain(c.receiveUnit(c.fragmentationContext.frag, false))
 		}
 	case msgGuessUnknown:
